@@ -704,6 +704,8 @@ func (c *FnCtx) mutexModel(fr *frame, st *State, name string, cc *ssa.CallCommon
 	cur := c.get(st, reg)
 	switch method {
 	case "Lock":
+		// a blocking acquire returns only when nobody, the caller included, holds the mutex
+		c.assume(st.g, fmt.Sprintf("(not (select %s %s))", cur, m))
 		c.set(st, reg, fmt.Sprintf("(store %s %s true)", cur, m))
 	case "Unlock":
 		c.oblige("lock", "unlock-held@"+shortPos(c.curPos), st.g, fmt.Sprintf("(select %s %s)", cur, m), "Unlock of a mutex this function does not hold")
